@@ -222,6 +222,24 @@ fn oracle_poison(pc: &PoisonCase, obs: &mut Obs) -> Result<(), Violation> {
     Ok(())
 }
 
+/// Many short closures from a few threads (tens of thousands of hand-offs per workload).
+fn heavy_workload() -> impl Strategy<Value = Workload> {
+    (3usize..9, 1500usize..5000, 1u8..3).prop_map(|(nthreads, ops, locks)| Workload {
+        locks,
+        threads: (0..nthreads)
+            .map(|t| {
+                (0..ops)
+                    .map(|i| Op {
+                        lock: ((t + i) % locks as usize) as u8,
+                        delay: if i % 997 == 0 { Delay::Yield } else { Delay::None },
+                        nested: false,
+                    })
+                    .collect()
+            })
+            .collect(),
+    })
+}
+
 pub fn property() -> Property {
     Property {
         id: "C20",
@@ -233,6 +251,7 @@ pub fn property() -> Property {
         health: vec![("lock.rmw_history", "long-critical-section", 100)],
         subs: vec![
             prop_sub("lock.rmw_history", 1_200, 40_000, |_| workload(), oracle).shards(4),
+            prop_sub("lock.many_handoffs", 60, 1_500, |_| heavy_workload(), oracle).shards(4),
             prop_sub(
                 "lock.fault_not_torn",
                 200,
